@@ -124,6 +124,7 @@ type State struct {
 	gasCharged [][2]string
 	hookCalls  []HookCall
 	hookFailed bool
+	hookCount  string // SMT Int: number of bridge-hook notifications sent (symbolic across loops)
 	nextCalled int
 	depositCalls int
 	depositErrs []string
@@ -147,7 +148,7 @@ type HookCall struct {
 
 func (s *State) Clone() *State {
 	n := &State{pc: append([]string(nil), s.pc...), cells: make(map[int]Value, len(s.cells)), cellTy: s.cellTy,
-		stores: make(map[int]*Store, len(s.stores)), trace: append([]string(nil), s.trace...), recovering: s.recovering, panicVal: s.panicVal, walks: s.walks, gasCharged: append([][2]string(nil), s.gasCharged...), hookCalls: append([]HookCall(nil), s.hookCalls...), hookFailed: s.hookFailed, nextCalled: s.nextCalled, depositCalls: s.depositCalls, depositErrs: append([]string(nil), s.depositErrs...), calls: append([]CallRec(nil), s.calls...)}
+		stores: make(map[int]*Store, len(s.stores)), trace: append([]string(nil), s.trace...), recovering: s.recovering, panicVal: s.panicVal, walks: s.walks, gasCharged: append([][2]string(nil), s.gasCharged...), hookCalls: append([]HookCall(nil), s.hookCalls...), hookFailed: s.hookFailed, hookCount: s.hookCount, nextCalled: s.nextCalled, depositCalls: s.depositCalls, depositErrs: append([]string(nil), s.depositErrs...), calls: append([]CallRec(nil), s.calls...)}
 	for k, v := range s.cells {
 		n.cells[k] = v
 	}
